@@ -2,7 +2,7 @@
 From Coq Require Import String Ascii List Bool ZArith Arith.
 Import ListNotations.
 Require Import V.Lib.PyStr V.Lib.JTree V.Conf.Model V.Conf.Proofs.
-Require Import V.Conf.Rescan V.Conf.RescanProofs V.Conf.Acyclic V.Conf.Tree V.Conf.TreeInterp V.Conf.Types V.Conf.Instance.
+Require Import V.Conf.Rescan V.Conf.RescanProofs V.Conf.Acyclic V.Conf.Tree V.Conf.TreeInterp V.Conf.Types V.Conf.Instance V.Conf.Replicate.
 Open Scope string_scope.
 
 (* Precedence, for every list of layers (lowest priority first), every option path and every variable:
@@ -227,6 +227,33 @@ Proof.
 Qed.
 Print Assumptions C04_instance.
 
+(* FlowIRConcrete.replicate() resolves the typed options workflowAttributes.replicate (int: the number of replicas
+   that are generated) and workflowAttributes.aggregate (bool) in FlowIR.apply_replicate with a dictionary of visible
+   variables that it builds on its own out of the sections of the instance (Replicate.v: override_object(
+   override_object(global, stage), component variables)).  For every document, user variables, platform, stage,
+   component and variable:
+   (1) that dictionary holds the value of the SAME layer as the documented order
+       default global < default stage (+user) < platform global < platform stage (+user) < component < override;
+   (2) built from the sections as replicate() sees them (global and stage pre-resolved in their own scope, the
+       component variables filled in against global < stage < component), the variable is visible exactly when a
+       layer of the platform defines it, and
+   (3) when the documented value is a number, a boolean or text without '%' it is that very value. *)
+Theorem C04_replicate : forall (extra : nat) (d : doc) (u : jv) (p sk : string) (c : jv) (x : string),
+  lookup x (repl_visible (inst_global d p) (inst_stage d u p sk) (inst_comp_vars p c))
+    = first_some (lookup x) (rev (var_layers d u p sk c))
+  /\ (forall G' S' C', repl_sections extra d u p sk c = Ok (G', S', C') ->
+        (lookup x (repl_visible G' S' C') = None <-> first_some (lookup x) (rev (var_layers d u p sk c)) = None)
+        /\ (forall v, first_some (lookup x) (rev (var_layers d u p sk c)) = Some v -> value_plain v ->
+              lookup x (repl_visible G' S' C') = Some v)).
+Proof.
+  intros extra d u p sk c x. rewrite <- (layer_vars_precedence x (var_layers d u p sk c)). split.
+  - exact (repl_visible_documented d u p sk c x).
+  - intros G' S' C' H. split.
+    + exact (repl_sections_defined extra d u p sk c G' S' C' x H).
+    + intros v. exact (repl_sections_plain extra d u p sk c G' S' C' x v H).
+Qed.
+Print Assumptions C04_replicate.
+
 (* non-vacuity: a two-platform document; on platform p the platform blueprint beats the default one, the
    component's override for p beats the component, the variable chain a -> b is followed, the override of the
    foreign platform q (which references an undefined variable) is ignored, and the typed leaf is converted *)
@@ -261,6 +288,20 @@ Definition ex_inst : doc :=
      d_components := [JDict [("name", JStr "c"); ("stage", JInt 0); ("variables", JDict [("n", JInt 2)])]] |}.
 Definition ex_inst_c : jv := JDict [("name", JStr "c"); ("stage", JInt 0); ("variables", JDict [("n", JInt 2)])].
 
+Definition ex_repl_c : jv :=
+  JDict [("name", JStr "c"); ("stage", JInt 0); ("variables", JDict [("rn", JInt 2); ("rk", JStr "%(rn)s")]);
+         ("workflowAttributes", JDict [("replicate", JStr "%(rk)s")])].
+Definition ex_repl_col : jv :=
+  JDict [("name", JStr "col"); ("stage", JInt 0); ("references", JList [JStr "c:ref"]);
+         ("variables", JDict [("ag", JStr "yes")]); ("workflowAttributes", JDict [("aggregate", JStr "%(ag)s")])].
+Definition ex_repl : doc :=
+  {| d_blueprint := JDict [];
+     d_variables := JDict [("default", JDict [("global", JDict [("rn", JInt 6); ("ag", JBool false)]);
+                                              ("stages", JDict [("0", JDict [("rn", JInt 3)])])]);
+                           ("p", JDict [("global", JDict []);
+                                        ("stages", JDict [("0", JDict [("rn", JInt 5); ("ag", JStr "no")])])])];
+     d_components := [ex_repl_c; ex_repl_col] |}.
+
 Definition ex_get (pi : list string) (r : res jv) : option jv := match r with Ok v => get_path pi v | Err _ => None end.
 
 Example C04_nonvacuous :
@@ -290,10 +331,18 @@ Example C04_nonvacuous :
   has_key "z" (inst_stage ex_inst (JDict []) "p" "0") = false /\
   (exists G' S', inst_vars_pre 0 ex_inst (JDict []) "p" "0" = Ok (G', S') /\
                  lookup "r" S' = Some (JStr "<Q>") /\ lookup "x" S' = Some (JStr "ds-x")) /\
-  value_plain (JStr "ds-x").
+  value_plain (JStr "ds-x") /\
+  (* replication: the component defines rn = 2 itself, the stage section of p says 5, the default one 3, the global
+     one 6: two replicas on p (through the link rk), and the consumer aggregates because ITS variable says so *)
+  repl_count 0 ex_dflt ex_repl (JDict []) "p" 0 ex_repl_c = Ok (Some 2%Z) /\
+  repl_aggregate 0 ex_dflt ex_repl (JDict []) "p" 0 ex_repl_col = Ok true /\
+  repl_count 0 ex_dflt ex_repl (JDict []) "p" 0 ex_repl_col = Ok None /\
+  (exists G' S' C', repl_sections 0 ex_repl (JDict []) "p" "0" ex_repl_c = Ok (G', S', C') /\
+                    lookup "rn" S' = Some (JInt 5) /\ lookup "rn" (repl_visible G' S' C') = Some (JInt 2)).
 Proof.
   repeat split; try (vm_compute; reflexivity); try exact ex_ctx_acyclic;
-    try (eexists; eexists; split; [vm_compute; reflexivity|split; vm_compute; reflexivity]).
+    try (eexists; eexists; split; [vm_compute; reflexivity|split; vm_compute; reflexivity]);
+    try (eexists; eexists; eexists; split; [vm_compute; reflexivity|split; vm_compute; reflexivity]).
   - vm_compute. repeat constructor.
   - intros w s H. cbn in H. destruct (String.eqb w "a"); [injection H as <-|destruct (String.eqb w "b"); [injection H as <-|discriminate]];
       vm_compute; intros c Hc; repeat (destruct Hc as [Hc|Hc]; [try discriminate; injection Hc as <-; reflexivity|]); destruct Hc.
